@@ -141,6 +141,9 @@ func ExpectH(m *refmodel.Model, op wire.Op) HRes {
 	o := op
 	o.Val = string(op.Value())
 	o.VGen = false
+	if o.Kind == "mget" && len(o.Quiet) != len(o.Keys) {
+		o.Quiet = make([]bool, len(o.Keys))
+	}
 	e := ApplyModel(m, "binary", o)
 	r := HRes{Class: e.Class, Misses: e.Misses}
 	for _, h := range e.Hits {
